@@ -167,7 +167,7 @@ func classifyIncErr(msg string) string {
 		return "notexist"
 	case has("is a directory"):
 		return "isdir"
-	case has(jerr.IncludeRootErr), has(jerr.IncludeUpErr), has(jerr.IncludeSeparatorErr), has("cannot be empty"):
+	case has("(Filename)") && (has(jerr.IncludeRootErr) || has(jerr.IncludeUpErr) || has(jerr.IncludeSeparatorErr) || has("cannot be empty")):
 		return "badname"
 	case has(jerr.IncorrectParameter):
 		return "param"
